@@ -24,3 +24,8 @@ claim("C03", "exploration", "Hypothesis-generated (request, reply) pairs built b
       "invalid codes and lengths, replies of other services, echo-changed and length-broken replies are generated; helpers.parse_pdu must accept / raise RequestResponseMismatch / "
       "raise MalformedResponse as the reference matcher says. The NRC -> exception-class table is enumerated exhaustively. Exploration over an unbounded pair space.",
       "Trusts the reference matcher and reply builders (vf/refcodec.py). Abstains where the statement defines no echo (requests that stay raw) and between mismatch/malformed when a changed echo also breaks the format.")
+claim("C04", "fault_enumeration", "Exhaustive enumeration of transport-event scripts (length <= 3 quick / <= 4 thorough) x max_retry, Hypothesis scripts with per-request overrides, long pending/silence runs; reference retry/pending machine; virtual time",
+      "Every script over the ten-event alphabet up to the length bound is run against the real UDSClient.request over a scripted transport under virtual time and compared with a "
+      "reference retry/pending machine (outcome, number of transmissions, reconnects, no transmission while pending, bounded duration). Fault enumeration: the bounded script space is "
+      "covered completely; longer scripts and overrides are sampled.",
+      "Scripted in-memory transport and virtual clock stand in for the network; limits (120 pendings, max(timeout,20 s) silence) are only checked generously.")
